@@ -106,12 +106,21 @@ func genCase(t *rapid.T) Case {
 		case k == 28:
 			c.Ops = append(c.Ops, Op{"SetZIndex", []float64{float64(rapid.IntRange(-2, 3).Draw(t, "z"))}})
 		case k == 29:
-			c.Ops = append(c.Ops, Op{"DrawImage", []float64{f(t, "x", -20, 60), f(t, "y", -20, 60), float64(rapid.IntRange(1, 6).Draw(t, "iw")), float64(rapid.IntRange(1, 6).Draw(t, "ih")), f(t, "res", 1, 8)}})
+			// the image's bounds need not start at the origin (a SubImage)
+			c.Ops = append(c.Ops, Op{"DrawImage", []float64{f(t, "x", -20, 60), f(t, "y", -20, 60), float64(rapid.IntRange(1, 6).Draw(t, "iw")), float64(rapid.IntRange(1, 6).Draw(t, "ih")), f(t, "res", 1, 8), float64(rapid.IntRange(0, 2).Draw(t, "iox") * 3), float64(rapid.IntRange(0, 2).Draw(t, "ioy") * 2)}})
 		case k == 30:
 			// build a path through the context and paint it
 			c.Ops = append(c.Ops, Op{"Build", []float64{f(t, "bx", -10, 50), f(t, "by", -10, 50), f(t, "bw", 1, 20), f(t, "bh", 1, 20), float64(rapid.IntRange(0, 2).Draw(t, "paint"))}})
 		case k == 31:
-			c.Ops = append(c.Ops, Op{"SetDashes", []float64{f(t, "off", -3, 3), f(t, "d0", 1, 4), f(t, "d1", 1, 4)}})
+			// two or four entries (a shorter pattern after a longer one may reuse its storage), sometimes none
+			a := []float64{f(t, "off", -3, 3), f(t, "d0", 1, 4), f(t, "d1", 1, 4)}
+			switch rapid.IntRange(0, 3).Draw(t, "dashlen") {
+			case 0:
+				a = append(a, f(t, "d2", 1, 4), f(t, "d3", 1, 4))
+			case 1:
+				a = a[:1]
+			}
+			c.Ops = append(c.Ops, Op{"SetDashes", a})
 		default:
 			c.Ops = append(c.Ops, Op{"DrawPath", []float64{f(t, "x", -20, 60), f(t, "y", -20, 60), f(t, "pw", 1, 20), f(t, "ph", 1, 20), float64(rapid.IntRange(0, 2).Draw(t, "shape"))}})
 		}
@@ -131,6 +140,46 @@ func genCase(t *rapid.T) Case {
 		c.Post = append(c.Post, Op{"RenderViewTo", m[:]})
 	}
 	return c
+}
+
+// samePattern compares two dash patterns as periodic on/off functions of the position along the path.
+func samePattern(a []float64, aoff float64, b []float64, boff float64) bool {
+	state := func(d []float64, off, t float64) bool {
+		if len(d)%2 == 1 {
+			d = append(append([]float64(nil), d...), d...)
+		}
+		total := 0.0
+		for _, x := range d {
+			total += x
+		}
+		if total <= 0 {
+			return true
+		}
+		x := math.Mod(t+off, total)
+		if x < 0 {
+			x += total
+		}
+		for i, v := range d {
+			if x < v {
+				return i%2 == 0
+			}
+			x -= v
+		}
+		return true
+	}
+	ta := 0.0
+	for _, x := range a {
+		ta += x
+	}
+	mismatch := 0
+	const n = 1500
+	for k := 0; k < n; k++ {
+		t := 3 * ta * (float64(k) + 0.5) / n
+		if state(a, aoff, t) != state(b, boff, t) {
+			mismatch++
+		}
+	}
+	return mismatch <= 3*(len(a)+len(b))
 }
 
 func shapeOf(a []float64) *canvas.Path {
@@ -250,8 +299,8 @@ func checkCase(c Case, r *vf.R) error {
 				ctx.SetFillRule(frules[int(a[0])])
 				st.style.rule = int(a[0])
 			case "SetDashes":
-				ctx.SetDashes(a[0], a[1], a[2])
-				st.style.dashOffset, st.style.dashes = a[0], []float64{a[1], a[2]}
+				ctx.SetDashes(a[0], a[1:]...)
+				st.style.dashOffset, st.style.dashes = a[0], append([]float64(nil), a[1:]...)
 			case "ResetStyle":
 				ctx.ResetStyle()
 				st.style = defaultStyle()
@@ -365,7 +414,11 @@ func checkCase(c Case, r *vf.R) error {
 					}
 				}
 			case "DrawImage":
-				img := image.NewRGBA(image.Rect(0, 0, int(a[2]), int(a[3])))
+				ox, oy := 0, 0
+				if len(a) >= 7 {
+					ox, oy = int(a[5]), int(a[6])
+				}
+				img := image.NewRGBA(image.Rect(ox, oy, ox+int(a[2]), oy+int(a[3])))
 				ctx.DrawImage(a[0], a[1], img, canvas.DPMM(a[4]))
 				pt := st.coordView.Apply(oracle.Pt{X: a[0], Y: a[1]})
 				m := csView(st.cs, W, H).Mul(st.view).Mul(oracle.Translate(pt.X, pt.Y)).Mul(oracle.Scale(1/a[4], 1/a[4]))
@@ -502,6 +555,11 @@ func checkCase(c Case, r *vf.R) error {
 					// patterns appearing out of nowhere are wrong here
 					if len(ms.dashes) == 0 {
 						return vf.Errorf("call %d: dashes %v although none were set", i, call.Dashes)
+					}
+				} else if len(ms.dashes) > 0 {
+					// the pattern may be given in another canonical form (rotated, with another offset) but must be the same on/off function
+					if !samePattern(ms.dashes, ms.dashOffset, call.Dashes, s.DashOffset) {
+						return vf.Errorf("call %d: dash pattern %v offset %v, the model has %v offset %v (after Push/Pop the pattern set before must be back)", i, call.Dashes, s.DashOffset, ms.dashes, ms.dashOffset)
 					}
 				}
 			}
